@@ -18,4 +18,14 @@ for path in sys.argv[1:]:
                     except Exception:
                         rp = None
             out.append({"property": prop, "key": m.group(1), "status": "open", "what": m.group(2)[:300], "replay_task": rp})
+            continue
+        k = re.match(r"KNOWN-FINDING: property=\S+ (.*) \[key=(.+) replay=(\S+)\]$", l)
+        if k:
+            what = k.group(1)
+            what = what.split(" [first failing case: ", 1)[1].rstrip("]") if " [first failing case: " in what else what
+            try:
+                rp = json.load(open("/verif/" + k.group(3)))["task"]
+            except Exception:
+                rp = None
+            out.append({"property": prop, "key": k.group(2), "status": "open", "what": what[:300], "replay_task": rp})
 print(json.dumps(out, indent=1, default=str))
